@@ -6,6 +6,7 @@ All functions are polymorphic over python numbers and symx.SymNum.
 """
 from __future__ import annotations
 
+from fractions import Fraction
 from typing import Any, List, Optional, Sequence, Tuple
 
 import z3
@@ -260,3 +261,76 @@ def radial_same(f1, f2, tol=0) -> z3.BoolRef:
         core.as_term(s1) * core.as_term(r1) >= 0,
     ]
     return z3.And(*conds), defs
+
+
+# ----------------------------------------------------------------- OT field ranges (COLR v1)
+
+_FIXED = (-32768, Fraction(2**31 - 1, 2**16))  # Fixed 16.16
+_F2DOT14 = (-2, Fraction(2**15 - 1, 2**14))
+_INT16 = (-32768, 32767)
+_UINT16 = (0, 65535)
+
+
+def field_ranges(p, out=None, skip_radial_wrapper=False):
+    """[(description, value, lo, hi)] for every numeric field of a nanoemoji paint tree that the COLR
+    compiler packs into a fixed-width OT field (OpenType COLR v1 paint formats).  A value outside its
+    range makes the table uncompilable (struct.error / OverflowError at save time)."""
+    out = [] if out is None else out
+    k = type(p).__name__
+    add = lambda d, v, rng: out.append((f"{k}.{d}", v, rng[0], rng[1]))
+    if k == "PaintTransform" and skip_radial_wrapper and type(p.paint).__name__ == "PaintRadialGradient":
+        pass  # the non-uniform remainder PaintRadialGradient.apply_transform wraps its circles in (contract-stubbed in callers)
+    elif k == "PaintTransform":
+        for n, v in zip(("xx", "yx", "xy", "yy", "dx", "dy"), p.transform):
+            add(n, v, _FIXED)
+    elif k == "PaintTranslate":
+        add("dx", p.dx, _INT16), add("dy", p.dy, _INT16)
+    elif k in ("PaintScale", "PaintScaleAroundCenter"):
+        add("scaleX", p.scaleX, _F2DOT14), add("scaleY", p.scaleY, _F2DOT14)
+    elif k in ("PaintScaleUniform", "PaintScaleUniformAroundCenter"):
+        add("scale", p.scale, _F2DOT14)
+    elif k in ("PaintRotate", "PaintRotateAroundCenter"):
+        out.append((f"{k}.angle/180", p.angle / 180, _F2DOT14[0], _F2DOT14[1]))
+    elif k in ("PaintSkew", "PaintSkewAroundCenter"):
+        out.append((f"{k}.xSkewAngle/180", p.xSkewAngle / 180, _F2DOT14[0], _F2DOT14[1]))
+        out.append((f"{k}.ySkewAngle/180", p.ySkewAngle / 180, _F2DOT14[0], _F2DOT14[1]))
+    elif k == "PaintLinearGradient":
+        for n in ("p0", "p1", "p2"):
+            q = getattr(p, n)
+            add(n + ".x", q[0], _INT16), add(n + ".y", q[1], _INT16)
+    elif k == "PaintRadialGradient":
+        for n in ("c0", "c1"):
+            q = getattr(p, n)
+            add(n + ".x", q[0], _INT16), add(n + ".y", q[1], _INT16)
+        add("r0", p.r0, _UINT16), add("r1", p.r1, _UINT16)
+    if hasattr(p, "center"):
+        add("center.x", p.center[0], _INT16), add("center.y", p.center[1], _INT16)
+    for attr in ("paint", "source", "backdrop"):
+        ch = getattr(p, attr, None)
+        if ch is not None and hasattr(ch, "format"):
+            field_ranges(ch, out, skip_radial_wrapper)
+    for ch in getattr(p, "layers", ()) or ():
+        field_ranges(ch, out, skip_radial_wrapper)
+    return out
+
+
+def encodable(p, gradients=True) -> z3.BoolRef:
+    from symx import core
+
+    conj = []
+    for d, v, lo, hi in field_ranges(p, None, not gradients):
+        if not gradients and "Gradient." in d:
+            continue  # nanoemoji checks these itself and raises OverflowError (C16's overflow jobs)
+        t = core.as_term(v)
+        conj.append(z3.And(t >= z3.RealVal(Fraction(lo)), t <= z3.RealVal(Fraction(hi))))
+    return z3.And(*conj) if conj else z3.BoolVal(True)
+
+
+def unencodable_fields(p, slack=0.5):
+    """concrete twin of `encodable` (slack: the compiler rounds int16 fields)"""
+    bad = []
+    for d, v, lo, hi in field_ranges(p):
+        s = slack if hi in (32767, 65535) else 1e-9
+        if not (float(lo) - s <= float(v) <= float(hi) + s):
+            bad.append((d, float(v), float(lo), float(hi)))
+    return bad
